@@ -144,10 +144,13 @@ def run(st, tier, seed):
         def body(wtext):
             q = " ".join(["%d%s" % (m, c) for m, c in pre] + [wtext + wc] + ["%d%s" % (m, c) for m, c in post])
             items = " ".join(before + ['"%s"' % q] + after)
+            # the resolved object is also used complemented, through domains(), and next to another strand's own wildcard
+            uses = ('strand X1 = x a\nstructure T1 = X1 : %d.\nstrand X2 = a x*\nstructure T2 = X2 : %d.\n'
+                    'strand X3 = "?Y" x* a : %d\nstructure T3 = X3 : %d.\n' % (L + 4, L + 4, L + 6, L + 6))
             if kind == "base":
-                return 'sequence x = "%s" : %d\nstrand X1 = x a\nstructure T1 = X1 : %d.\n' % (q, L, L + 4)
+                return 'sequence x = "%s" : %d\n%s' % (q, L, uses)
             if kind == "super":
-                return 'sequence x = %s : %d\nstrand X1 = x a\nstructure T1 = X1 : %d.\n' % (items, L, L + 4)
+                return 'sequence x = %s : %d\n%sstrand X4 = a domains(x*)\nstructure T4 = X4 : %d.\n' % (items, L, uses, L + 4)
             return 'strand X1 = %s : %d\nstructure T1 = X1 : %d.\n' % (items, max(L, 0), max(L, 0))
         if kind == "strand" and L == 0:
             continue
